@@ -368,6 +368,13 @@ class NewmarkRun:
         self.f = mat("f", ntot, nt)
         self.d0 = vec("d0", ntot) if self.ic is True else None
         self.v0 = vec("v0", ntot) if self.ic else None
+        if self.special:
+            # ... released from a unit displacement of the first equation with a unit velocity of the last, no applied force (fewer symbols)
+            self.f = I.NDArr.full((ntot, nt), F.const(0))
+            if self.d0 is not None:
+                self.d0 = I.NDArr.new((ntot,), [F.const(int(i == 0)) for i in range(ntot)])
+            if self.v0 is not None:
+                self.v0 = I.NDArr.new((ntot,), [F.const(int(i == ntot - 1)) for i in range(ntot)])
         cp = lambda x: None if x is None else x.copy()
         kw = {"rf": list(self.RF_)} if rf else {}
         self.obj = it.instantiate(it.cls(NM, "SolveNewmark"), cp(m_in), cp(b_in), cp(k_in), H, **kw)
@@ -644,7 +651,7 @@ def _newmark_runs(ctx):
 
 def _emit(ctx, r, name, text, where):
     ok, detail = r.facts_[name]
-    ctx.check(ok, f"SolveNewmark ({r.tag}): {text}" + ((" [decided on a 3-step history" + (" of the coupled systems whose A is diagonal" if r.special else "") +
+    ctx.check(ok, f"SolveNewmark ({r.tag}): {text}" + ((" [decided on a 3-step history" + (" of the coupled systems whose A is diagonal, released from unit initial conditions without force" if r.special else "") +
                                                          ": the formulas of the general case outgrow the budget]") if r.reduced else ""),
               where, None if ok else detail)
 
